@@ -25,12 +25,12 @@ IVP = "xitorch/integrate/solve_ivp.py"
 
 def rules(model: Model, tier: str) -> List[RuleResult]:
     fc = ac.get_fncls(model, "_SolveIVP")
-    R1 = RuleResult(PROP, "AC1", "arity of _SolveIVP.backward and of the three apply sites", min_instances=4)
+    R1 = RuleResult(PROP, "AC1", "arity of _SolveIVP.backward and of the apply sites", min_instances=2)
     R2 = RuleResult(PROP, "AC2", "only ts and y0 fixed slots may carry a gradient", min_instances=6)
     R3 = RuleResult(PROP, "AC3", "create_graph=torch.is_grad_enabled() in solve_ivp.py", min_instances=1)
     R4 = RuleResult(PROP, "AC4", "augmented-dynamics pull-back: allow_unused=True and None -> zeros before flattening", min_instances=2)
     R5 = RuleResult(PROP, "AC5", "recursive integration uses the saved backward options", min_instances=1)
-    R6 = RuleResult(PROP, "AC6", "layout agreement of solve_ivp's apply calls with forward's split", min_instances=5)
+    R6 = RuleResult(PROP, "AC6", "layout agreement of solve_ivp's apply calls with forward's split", min_instances=3)
     R7 = RuleResult(PROP, "AC7", "no in-place update of values aliasing .apply outputs in backward", min_instances=1)
     T = RuleResult(PROP, "C08-T", "ts-gradient gating and identical layout of the two evaluation modes", min_instances=3)
 
@@ -76,13 +76,29 @@ def _reanchoring(fc, Y: RuleResult):
         raise AnalysisError("C08-Y: the saved forward trajectory (saved_tensors[2]) is not bound to a name in backward")
     yt = yt_names[0]
 
-    def slot_assigns(body):
+    def slot_key(e):
+        # a slot named by a local constant (`y_index = 0`) is the slot of that constant
+        if isinstance(e, ast.Name):
+            stores = [s_ for s_ in own_nodes(bw.node) if isinstance(s_, ast.Assign) and any(isinstance(t_, ast.Name) and t_.id == e.id for t_ in s_.targets)]
+            others = [n_ for n_ in own_nodes(bw.node) if isinstance(n_, ast.Name) and n_.id == e.id and isinstance(n_.ctx, (ast.Store, ast.Del))]
+            if len(stores) == 1 and len(others) == 1 and isinstance(stores[0].value, ast.Constant) and isinstance(stores[0].value.value, int):
+                return str(stores[0].value.value)
+        return ast.unparse(e)
+
+    def slot_assigns(body, displays=False):
         out = {}
         for s in body:
             if isinstance(s, ast.Assign) and isinstance(s.targets[0], ast.Subscript) and isinstance(s.targets[0].value, ast.Name) and s.targets[0].value.id == "states":
-                out[ast.unparse(s.targets[0].slice)] = s
+                out[slot_key(s.targets[0].slice)] = s
+            elif displays and isinstance(s, ast.Assign) and isinstance(s.targets[0], ast.Name) and s.targets[0].id == "states" and isinstance(s.value, (ast.List, ast.Tuple)):
+                # the initial state written as a list display: element i initialises slot i (up to the first starred element)
+                for i_, el in enumerate(s.value.elts):
+                    if isinstance(el, ast.Starred):
+                        break
+                    shim = ast.copy_location(ast.Assign(targets=[ast.Subscript(value=ast.Name(id="states", ctx=ast.Load()), slice=ast.Constant(value=i_), ctx=ast.Store())], value=el), s)
+                    out[str(i_)] = shim
         return out
-    pre = slot_assigns(bw.node.body)
+    pre = slot_assigns(bw.node.body, displays=True)
     inl = slot_assigns(loop.body)
     rebinding = [i for i, s in enumerate(loop.body) if isinstance(s, ast.Assign) and isinstance(s.targets[0], ast.Name) and s.targets[0].id == "states"]
     # the slot holding y: the one initialised from yt before the loop
@@ -105,9 +121,12 @@ def _reanchoring(fc, Y: RuleResult):
               "which amplifies every decaying mode of the dynamics)" % yt)
     ok_g = False
     if gs is not None and isinstance(gs.value, ast.BinOp) and isinstance(gs.value.op, ast.Add) and rebinding and loop.body.index(gs) > rebinding[-1]:
-        parts = [ast.unparse(gs.value.left), ast.unparse(gs.value.right)]
         idx = ast.unparse(ys.value.slice) if ok_y else idx0
-        ok_g = sorted(parts) == sorted(["%s[%s]" % (gname, idx), "states[%s]" % gslot])
+
+        def is_prop(e):
+            return isinstance(e, ast.Subscript) and isinstance(e.value, ast.Name) and e.value.id == "states" and slot_key(e.slice) == gslot
+        sides = [gs.value.left, gs.value.right]
+        ok_g = any(ast.unparse(a) == "%s[%s]" % (gname, idx) and is_prop(b) for a, b in (sides, sides[::-1]))
     if ok_g:
         Y.ok(bw.fq, "the incoming gradient at the same index is added to the propagated adjoint: `%s`" % norm_stmt(gs))
     else:
